@@ -17,7 +17,7 @@ abbrev Chunk := List Nat          -- bytes
 inductive Actor | main | out | err | stdin | timer deriving DecidableEq, Repr
 
 inductive MainPc
-  | poll | pollDead (fin : Bool) | sendIntr | settleCheck | settleCancel | setFin
+  | idle | poll | pollDead (fin : Bool) | sendIntr | settleCheck | settleCancel | setFin
   | join (i : Nat) (n : Nat) (tmo : Bool) | checkTimeout | stop | done
   deriving DecidableEq, Repr
 inductive RdPc | read | done | dead deriving DecidableEq, Repr
@@ -174,6 +174,7 @@ def nextJoin (s : S) (i : Nat) : S := enterJoin s (i + 1)
 
 def mainStep (s : S) : S :=
   match s.mainPc with
+  | .idle => { s with mainPc := .poll }   -- asynchronous run: `Promise.join()` is called, `_finish` begins
   | .poll =>
     if s.intr then { s with intr := false, mainPc := .sendIntr } else { s with mainPc := .pollDead s.exited }
   | .sendIntr => { s with childStdin := s.childStdin ++ [(false, [3])], mainPc := .poll }
@@ -270,16 +271,19 @@ def effEcho (echoOpt : Option Bool) (pty inTty : Bool) : Bool :=
   | none => !pty && inTty
 
 /-- initial state for given options and environment script.  `start()` failing means no worker
-    and no timer is ever created: `run` raises at once (and `stop()` finds no timer). -/
+    and no timer is ever created: `run` raises at once (and `stop()` finds no timer).
+    `async`: `run(asynchronous=True)` has returned a Promise - workers and timer are already running -
+    and the main thread is `idle` until it calls `Promise.join()` (which is `_finish` + `stop`, exactly
+    the tail of a synchronous `run`). -/
 def S.init (hasStdin hasTimer warn pty echo : Bool) (outP errP : List Chunk) (ins : List InItem)
-    (holdOpen startFails : Bool := false) (readSize : Nat := 1000) : S :=
+    (holdOpen startFails : Bool := false) (readSize : Nat := 1000) (async : Bool := false) : S :=
   { hasStdin := hasStdin && !startFails, hasTimer := hasTimer, warn := warn, pty := pty, echo := echo,
     outPc := if startFails then .done else .read, errPc := if startFails then .done else .read,
     out := { pending := outP, isOpen := !startFails }, err := { pending := errP, isOpen := !startFails },
     inScript := ins,
     holdOpen := holdOpen, startFails := startFails, readSize := readSize,
     tmPc := if hasTimer && !startFails then .armed else .none,
-    mainPc := if startFails then .done else .poll,
+    mainPc := if startFails then .done else if async then .idle else .poll,
     outcome := if startFails then .startFailed else .pending }
 
 end Inv
